@@ -91,7 +91,7 @@ class Cmp:
         self.V = V
         from fractions import Fraction
 
-        self.tol = Fraction(1, 10 ** decimals)
+        self.tol = None if decimals is None else Fraction(1, 10 ** decimals)  # None: exact (bit-identical) comparison
         self.parts = []
 
     def add(self, path, cond):
@@ -102,6 +102,9 @@ class Cmp:
         V = self.V
         if got is None or exp is None:
             self.add(path, got is None and exp is None)
+            return
+        if self.tol is None:
+            self.add(path, V.eq(got, exp) if isinstance(got, Sym) or isinstance(exp, Sym) else bool(got == exp))
             return
         d = got - exp
         if isinstance(d, Sym):
@@ -391,8 +394,12 @@ def initial_state(V, n, t0=0, symbolic_orientation=True):
 
 
 def signal(V, n, t):
-    return st.SignalState(time_step=t, indicator_left=V.bool(n + "_left"), indicator_right=False, braking_lights=V.bool(n + "_brake"),
-                          hazard_warning_lights=True, flashing_blue_lights=False, horn=V.bool(n + "_horn"))
+    """fully or partially populated signal state (which attributes are populated is part of the content)"""
+    full = dict(indicator_left=V.bool(n + "_left"), indicator_right=False, braking_lights=V.bool(n + "_brake"),
+                hazard_warning_lights=True, flashing_blue_lights=False, horn=V.bool(n + "_horn"))
+    subsets = [list(full), ["braking_lights"], ["horn", "indicator_left"], ["hazard_warning_lights", "flashing_blue_lights", "indicator_right"]]
+    keep = subsets[V.choice(n + "_populated", len(subsets))]
+    return st.SignalState(time_step=t, **{k: v for k, v in full.items() if k in keep})
 
 
 def sk_static(V, shape_kind):
@@ -608,7 +615,7 @@ def sk_header(V):
     sc.add_objects(fx.straight_lanelet(1, lanelet_type={LaneletType.URBAN}))
 
     def check(V, sc2, pps2, d):
-        c = Cmp(V, 12)  # str()-formatted leaves are written in full precision
+        c = Cmp(V, 12 if d is not None else None)  # str()-formatted leaves are written in full precision
         c.real("dt", sc2.dt, dt)
         c.add("scenario id", str(sc2.scenario_id) == "DEU_Muc-1_2_T-1" and sc2.author == "author" and sc2.affiliation == "affiliation" and sc2.source == "source")
         c.add("tags", sc2.tags == {Tag.URBAN})
